@@ -8,6 +8,8 @@ import VotelibProofs.Lemmas.ShapeDefs
 import VotelibProofs.Props.C05
 import VotelibProofs.Props.C06
 import Mathlib.Data.List.Perm.Subperm
+import VotelibProofs.Lemmas.MonoBucklin
+import VotelibProofs.Lemmas.ConvertPositional
 namespace VL.C08
 open VL VL.Condorcet
 
@@ -672,5 +674,124 @@ theorem tideman_refusals_witness :
 
 example : 1 ≤ (allRankedCandidates C05.exProfile).length ∧ tideman true C05.exProfile = .ok [Slot.cand 1] ∧
     tideman false C05.exProfile = .ok [Slot.cand 1] := by decide +kernel
+
+end VL.C08
+
+/-! ### Bucklin / PreferenceAddition for ONE seat (`Mono.evalBucklinSplit`, `Mono.evalBucklin`; driver C17 rules `bucklin`,
+    `bucklin_whole`) -/
+
+namespace VL.C08
+open VL VL.Convert VL.Mono
+
+theorem loopA_shape (tots : Nat → Votes) (cands : List Cand) (hnd : ∀ i, (keys (tots i)).Nodup)
+    (hsub : ∀ i, ∀ c ∈ keys (tots i), c ∈ cands) (q : Rat) :
+    ∀ f i, loopA tots q f i = [] ∨ SelShape cands 1 (loopA tots q f i) := by
+  intro f
+  induction f with
+  | zero => intro i; exact Or.inl rfl
+  | succ f ih =>
+    intro i
+    rw [loopA_succ]
+    split
+    · rename_i hlen
+      right
+      have hne : majOf (tots i) q ≠ [] := (getNBest_one_length _).1 hlen
+      have hl : 1 ≤ (majOf (tots i) q).length := by
+        cases hm : majOf (tots i) q with
+        | nil => exact absurd hm hne
+        | cons _ _ => simp
+      have := getNBest_shape (majOf (tots i) q) (nodup_majOf (hnd i) q) 1 le_rfl hl
+      apply this.mono
+      intro c hc
+      obtain ⟨e, he, rfl⟩ := List.mem_map.1 hc
+      exact hsub i _ (List.mem_map.2 ⟨e, (mem_majOf.1 he).1, rfl⟩)
+    · exact ih (i + 1)
+
+theorem keys_cum_sub (p : RProfile) (j : Nat) : ∀ c ∈ keys (cum p j), c ∈ allRankedCandidates p := by
+  have hitems : ∀ (i : Nat) (bw : Ballot × Rat), bw ∈ p → ∀ x ∈ dkeys (roundItems i bw), x ∈ allRankedCandidates p := by
+    intro i bw hbw x hx
+    rw [mem_allRankedCandidates]
+    refine ⟨bw, hbw, ?_⟩
+    simp only [roundItems, dkeys, List.map_map, Function.comp_def, List.map_id'] at hx
+    unfold placeCands at hx
+    cases hget : bw.1[i]? with
+    | none => rw [hget] at hx; simp at hx
+    | some it =>
+      rw [hget] at hx
+      exact List.mem_flatMap.2 ⟨it, List.mem_of_getElem? hget, hx⟩
+  induction j with
+  | zero =>
+    intro c hc
+    simp only [cum, bucklinRound_eq] at hc
+    rcases (mem_dkeys_accum _ p [] c).1 hc with h | ⟨bw, hbw, h⟩
+    · simp [dkeys] at h
+    · exact hitems 0 bw hbw c h
+  | succ j ih =>
+    intro c hc
+    simp only [cum, bucklinRound_eq] at hc
+    rcases (mem_dkeys_accum _ p _ c).1 hc with h | ⟨bw, hbw, h⟩
+    · exact ih c h
+    · exact hitems (j + 1) bw hbw c h
+
+/- Full statement (FALSE of the current code, `bucklin_short_witness`; open finding C08-preference-addition-short-list):
+     theorem bucklin_shape : 1 ≤ (allRankedCandidates p).length → evalBucklin p = .ok r → SelShape (allRankedCandidates p) 1 r -/
+
+/-- **Bucklin without splitting of shared ranks, one seat (partial).**  The answer is either EMPTY (nobody ever
+    passes half of the votes within the ranks given) or has the selection shape for one seat over the candidates of
+    the profile. -/
+theorem bucklin_whole_shape_partial {p : RProfile} (_h1 : 1 ≤ (allRankedCandidates p).length) {r : List Slot}
+    (h : evalBucklin p = .ok r) : r = [] ∨ SelShape (allRankedCandidates p) 1 r := by
+  have hp : p ≠ [] := by
+    rintro rfl
+    simp [evalBucklin] at h
+  rw [evalBucklin_eq p hp] at h
+  simp only [Except.ok.injEq] at h
+  subst h
+  exact loopA_shape (cum p) _ (nodup_cum p) (keys_cum_sub p) _ _ _
+
+/-- the only error value is the ValueError of `max()` over no ballots — never with a candidate present -/
+theorem bucklin_whole_refusals {p : RProfile} (h1 : 1 ≤ (allRankedCandidates p).length) {e : Err}
+    (h : evalBucklin p = .error e) : e = .votingSystemError ∨ e = .notImplemented := by
+  exfalso
+  have hp : p ≠ [] := by
+    rintro rfl
+    revert h1
+    decide
+  rw [evalBucklin_eq p hp] at h
+  simp at h
+
+theorem bucklin_whole_refusals_all {p : RProfile} {e : Err} (h : evalBucklin p = .error e) :
+    p = [] ∧ e = .valueError := by
+  by_cases hp : p = []
+  · subst hp
+    simp only [evalBucklin, List.isEmpty_nil, if_true, Except.error.injEq] at h
+    exact ⟨rfl, h.symm⟩
+  · rw [evalBucklin_eq p hp] at h
+    simp at h
+
+/-- default Bucklin (shared ranks split over the compatible strict orders first): the same over the candidates of the
+    decoupled profile -/
+theorem bucklin_shape_partial {p : RProfile} (h1 : 1 ≤ (allRankedCandidates (decouple p)).length) {r : List Slot}
+    (h : evalBucklinSplit p = .ok r) : r = [] ∨ SelShape (allRankedCandidates (decouple p)) 1 r :=
+  bucklin_whole_shape_partial h1 h
+
+theorem bucklin_refusals {p : RProfile} (h1 : 1 ≤ (allRankedCandidates (decouple p)).length) {e : Err}
+    (h : evalBucklinSplit p = .error e) : e = .votingSystemError ∨ e = .notImplemented :=
+  bucklin_whole_refusals h1 h
+
+/-- `bucklin_shape` is FALSE of the current code: `a:1, b:1` — nobody exceeds the quota 1 — gives `[]` for one seat -/
+theorem bucklin_short_witness :
+    1 ≤ (allRankedCandidates [([RankItem.one 0], (1 : Rat)), ([RankItem.one 1], 1)]).length ∧
+    evalBucklin [([RankItem.one 0], 1), ([RankItem.one 1], 1)] = .ok [] ∧
+    evalBucklinSplit [([RankItem.one 0], 1), ([RankItem.one 1], 1)] = .ok [] ∧
+    ¬ SelShape (allRankedCandidates [([RankItem.one 0], (1 : Rat)), ([RankItem.one 1], 1)]) 1 [] := by
+  refine ⟨by decide +kernel, by decide +kernel, by decide +kernel, ?_⟩
+  intro h
+  exact absurd h.length (by decide)
+
+example : 1 ≤ (allRankedCandidates [([RankItem.one 0, RankItem.one 1], (2 : Rat)), ([RankItem.one 1], 1)]).length ∧
+    evalBucklin [([RankItem.one 0, RankItem.one 1], 2), ([RankItem.one 1], 1)] = .ok [Slot.cand 0] := by decide +kernel
+example : evalBucklinSplit [([RankItem.shared [0, 1]], (2 : Rat)), ([RankItem.one 2], 2)] = .ok [Slot.cand 2] := by
+  decide +kernel
 
 end VL.C08
